@@ -22,7 +22,9 @@ LEVEL_TEXT = ('Lean 4 theorems, for all tilt lists, angles, samplings and OPDs: 
               'the Tilt it records, for ANY coefficients, per segment and over any history; if the coefficients solve the normal equations '
               '(lstsq contract) and the Gram matrix is non-singular, every least-squares fit of the remaining OPD has zero tip/tilt and the '
               'same piston; first-order dispersive displacement lies on its trace at arc length |d(λ)|. The field in the end-to-end theorems is the '
-              'plane model\'s segment phasor (C03/C07 segPhasor/planePh) and the theorem covers any list of angular elements; the tilt lists of '
+              'plane model\'s segment phasor (C03/C07 segPhasor/planePh) and the theorem covers any list of angular elements; for a segmented plane '
+              'whose segments carry DIFFERENT tilts, segmented_tilt_equiv_complex: the sum over segments of the per-segment propagations with tilt metadata '
+              '(each split derived from its own Field.shift) equals the sum with each segment\'s ramp written into its OPD, at every sample all windows cover; the tilt lists of '
               'Wavefront(tilt), products and Tilt planes are derived from the generated wiring. Regenerated: Tilt.__init__/shift, first-order '
               'DispersiveTilt.shift, Field.shift units and axes, ptt_vector rows, subtracted rows/coefficients, recorded indices, the tilt[n::size] '
               'stride, Wavefront.__init__/Field.__mul__/TiltInterface.multiply list wiring.')
@@ -37,7 +39,8 @@ RULE = ('cases: (shift) lists of 1..4 angular / first-order dispersive / higher-
         '(fit) planes 2..7 x 2..7 with 1..3 segments, per-axis pixelscale, OPD = ramp + random, second fit after an OPD update; '
         '(reuse) one wavefront already carrying tilt (Wavefront(tilt) / fit_tilt / earlier Tilt plane) re-used for 2..4 Tilt planes, each propagated; '
         '(equiv) pupils with tilt 0.01 px .. beyond the output expressed as OPD ramp / Tilt plane / Wavefront(tilt) / fit_tilt / '
-        'several elements in different orders, segmented apertures with per-segment tilts, non-square output pixels, os 1..3. '
+        'several elements in different orders, a first-order DispersiveTilt plane (alone and after a Tilt plane) vs the OPD ramp of its displacement at the wavelength, '
+        'segmented apertures with per-segment tilts, non-square output pixels, os 1..3. '
         'distinct = (kind, shapes, element kinds, order, sampling class); non-trivial = everything but a single zero tilt'
         ' Extremes stream: every length scaled by 1e-9..1e3, the same tilt objects asked at wavelengths 3e-6..3e-4 apart (relative) and compared with fresh objects, lists of up to 47 tilt elements, almost-square output pixels, planes with more than 2**18 samples (1-D-like and 513..530 square; oracle only).')
 TRUSTED = ['np.linalg.lstsq returns a solution of the normal equations of the masked basis (contract; hypothesis hN of fit_tilt_is_least_squares; the oracle re-solves them)',
@@ -50,7 +53,7 @@ ASSUMPTIONS = ['planes with > 2**18 samples are generated for length scales >= 1
                'the solver call, reported as an observation',
                'higher-order DispersiveTilt is generated for length scales >= 1e-6 only: scipy.optimize.leastsq(x0=0) does not move at all when every '
                'length is ~1e-16 (a scale dependence of the numerical root finding, physically irrelevant; first-order elements are exact at all scales)',
-               'binary masks, pairwise disjoint segments; least-squares uniqueness checked only when a segment has 3 non-collinear pixels',
+               'binary masks, pairwise disjoint non-empty segments; least-squares uniqueness checked only when a segment has 3 non-collinear pixels',
                'generated tilt shifts keep a fractional part in [0.05,0.95] so that np.fix is insensitive to rounding']
 
 WL, Z, KS = P.WL, P.Z, 1.0      # current case's base wavelength / focal length / length scale (set per case by `_use`)
@@ -104,7 +107,10 @@ def _gen_fit(rng):
     lab = rng.integers(0, nseg + 1, (m, n)) if nseg > 1 else (rng.integers(0, 4, (m, n)) > 0).astype(int)
     if rng.integers(0, 4) == 0 and nseg == 1: lab[:] = 1
     for k in range(1, nseg + 1):
-        if not (lab == k).any(): lab[rng.integers(0, m), rng.integers(0, n)] = k
+        if not (lab == k).any():
+            # give the missing segment a sample without emptying another one (an empty segment mask is outside the precondition)
+            free = np.argwhere((lab == 0) | np.isin(lab, [j for j in range(1, nseg + 1) if (lab == j).sum() > 1]))
+            i, j = free[rng.integers(0, len(free))]; lab[i, j] = k
     r = np.arange(m)[:, None] - m // 2; c = np.arange(n)[None, :] - n // 2
     opd = rng.integers(-8, 9, (m, n)) * (WL / 32)
     for k in range(1, nseg + 1):
@@ -167,9 +173,15 @@ def _gen_equiv(rng):
         if rng.integers(0, 8) == 0: px = [0.0, 0.0]
         tilts.append(px)
     split = float(rng.uniform(-1, 2))
+    # a first-order dispersive element whose displacement at WL is a chosen number of output samples (row, col)
+    dpx = [float(rng.uniform(-3, 3)) + 0.37, float(rng.uniform(-3, 3)) - 0.41]
+    t0 = float(rng.uniform(-2, 2))
+    x_m = dpx[1] * du[1] / os_; y_m = -dpx[0] * du[0] / os_
+    d0 = float(rng.choice([-1, 1]) * rng.uniform(5e-5, 4e-4))
+    disp_el = {'px': dpx, 'trace': [t0, y_m - t0 * x_m], 'disp': [d0, WL - d0 * x_m * float(np.sqrt(1 + t0 * t0))]}
     return {'kind': 'equiv', 'shape': [m, n], 'dx': dx, 'scalar_dx': bool(dx[0] == dx[1]), 'du': du, 'os': os_, 'out_shape': S,
             'labels': [int(x) for x in lab.ravel()], 'nseg': nseg, 'amp': [float(x) for x in amp.ravel()], 'base': [float(x) for x in base.ravel()],
-            'tilt_px': tilts, 'split': split, 'prop_shape': None if rng.integers(0, 3) else [int(rng.integers(1, S[0] + 1)), int(rng.integers(1, S[1] + 1))]}
+            'tilt_px': tilts, 'split': split, 'disp_el': disp_el, 'prop_shape': None if rng.integers(0, 3) else [int(rng.integers(1, S[0] + 1)), int(rng.integers(1, S[1] + 1))]}
 
 def _gen_reuse(rng):
     """one wavefront that already carries tilt (Wavefront(tilt=...), a fit_tilt'ed plane, or an earlier Tilt plane) is
@@ -347,7 +359,21 @@ def _impl_equiv(c):
         # half in the OPD, half as metadata
         half = base + 0.5 * _ramp(c, 0) * (lab > 0)
         reps['half'] = _prop(c, lentil.Wavefront(WL) * mk(half) * lentil.Tilt(x=0.5 * thx, y=0.5 * thy), c['prop_shape'])
-    return {'reps': reps, 'pair': pair, 'insum': float(np.sum(np.abs(amp * (lab > 0))))}
+    pair2 = None
+    if nseg == 1 and c.get('disp_el'):
+        # a first-order DispersiveTilt plane (alone, and after a Tilt plane) versus its displacement written into the OPD
+        de = c['disp_el']
+        r = np.arange(m)[:, None] - m // 2; cc = np.arange(n)[None, :] - n // 2
+        rampd = lambda px: (lambda th: th[0] * r * c['dx'][0] - th[1] * cc * c['dx'][1])(_angles(c, px)) * (lab > 0)
+        thx, thy = _angles(c, c['tilt_px'][0])
+        both = [de['px'][0] + c['tilt_px'][0][0], de['px'][1] + c['tilt_px'][0][1]]
+        pair2 = [{'what': 'DispersiveTilt plane', 'want_shift': de['px'],
+                  'ref': _prop(c, lentil.Wavefront(WL) * mk(base + rampd(de['px'])), None),
+                  'got': _prop(c, lentil.Wavefront(WL) * mk(base) * lentil.DispersiveTilt(trace=de['trace'], dispersion=de['disp']), c['prop_shape'])},
+                 {'what': 'Tilt plane then DispersiveTilt plane', 'want_shift': both,
+                  'ref': _prop(c, lentil.Wavefront(WL) * mk(base + rampd(both)), None),
+                  'got': _prop(c, lentil.Wavefront(WL) * mk(base) * lentil.Tilt(x=thx, y=thy) * lentil.DispersiveTilt(trace=de['trace'], dispersion=de['disp']), c['prop_shape'])}]
+    return {'reps': reps, 'pair': pair, 'pair2': pair2, 'insum': float(np.sum(np.abs(amp * (lab > 0))))}
 
 def _impl_reuse(c):
     import lentil
@@ -637,6 +663,17 @@ def _oracle_equiv(c, io):
                 k = np.argwhere((d > tol) & w)[0]
                 return (f"segmented aperture: fitted per-segment tilts + common Tilt plane differ from the all-in-OPD representation at sample "
                         f"({k[0]},{k[1]}): {fld(g)[k[0], k[1]]:.6g} vs {fld(rf)[k[0], k[1]]:.6g} (max error {d[w].max():.3e})")
+    for pr in io.get('pair2') or []:
+        g, rf = pr['got'], pr['ref']
+        if g['shifts'] and not _close(g['shifts'][0], pr['want_shift'], 1e-3 + sum(abs(v) for v in pr['want_shift']) + sum(abs(v) for v in c['tilt_px'][0]), 1e-9):
+            return f"{pr['what']}: image displaced by {g['shifts'][0]} samples, its trace/dispersion put it at {pr['want_shift']}"
+        w = window(g) & window(rf)
+        if w.any():
+            d = np.abs(fld(g) - fld(rf))
+            if d[w].max() > tol:
+                k = np.argwhere((d > tol) & w)[0]
+                return (f"{pr['what']} differs from the OPD-ramp representation of its displacement at sample ({k[0]},{k[1]}): "
+                        f"{fld(g)[k[0], k[1]]:.6g} vs {fld(rf)[k[0], k[1]]:.6g} (max error {d[w].max():.3e})")
     # direction and per-axis pixel size: the shift handed to the propagation for a Tilt plane / wavefront tilt
     if c['nseg'] == 1:
         want = list(c['tilt_px'][0])
